@@ -48,6 +48,11 @@ class _Fut(Future):
             self._pool.release()
         return super().done()
 
+    def exception(self, timeout=None):
+        if not super().done():
+            self._pool.release()
+        return super().exception(timeout)
+
 
 class OrderedPool:
     """An executor to pass as `parallel=`.  Every task is computed faithfully and synchronously at
@@ -89,8 +94,11 @@ class OrderedPool:
                 pend = list(self.pending)
             if not pend:
                 continue
-            waited = all(len(f._waiters) > 0 for f, _ in pend)      # as_completed / wait installed waiters
-            if waited or time.time() - self.last_submit > 0.25:
+            # `as_completed` / `wait` have installed their waiter (they do so for all their futures
+            # at once, holding the futures' locks; `set_result` below waits for those locks).  No
+            # time-out: a release happens only when the consumer asks, so what a batch contains
+            # never depends on how fast anything ran.
+            if any(len(f._waiters) > 0 for f, _ in pend):
                 self.release()
 
     def release(self):
@@ -506,6 +514,16 @@ def _perturb_globals(perturb, pos, np):
         np.random.random()
 
 
+def _global_state(np):
+    """digest of the state of the two process-global generators"""
+    st = np.random.get_state()
+    return hashlib.sha1(repr(random.getstate()).encode() + st[1].tobytes() + repr(st[2:]).encode()).hexdigest()[:16]
+
+
+# calls that legitimately consume the global generator (they have no seed parameter)
+GLOBAL_BY_DESIGN = {"slice_and_reconfigure_forest_globalseed"}
+
+
 def main():
     job = json.load(sys.stdin)
     sys.path.insert(0, job["repo"])
@@ -516,6 +534,7 @@ def main():
     results = {}
     selfcheck = {}
     pools = {}
+    touched = []
     cases = job["cases"]
     SCHED["order"] = job.get("sched") or "fifo"
     SCHED["salt"] = job["perturb"]
@@ -523,10 +542,13 @@ def main():
         case = cases[pos]
         _perturb_globals(job["perturb"], pos, np)
         del POOL_LOGS[:]
+        g0 = _global_state(np)
         try:
             out = run_api(ctg, case)
         except Exception as e:  # the error class is part of the observable result
             out = {"exception": type(e).__name__, "msg": str(e)[:120]}
+        if _global_state(np) != g0 and case["api"] not in GLOBAL_BY_DESIGN:
+            touched.append(pos)
         if POOL_LOGS:
             for pl in POOL_LOGS:
                 pl.shutdown()
@@ -547,6 +569,7 @@ def main():
             if bad:
                 selfcheck[str(pos)] = bad
     json.dump({"results": results, "selfcheck": selfcheck, "pool_orders": pools, "sched": SCHED["order"],
+               "global_touched": touched,
                "hashseed": os.environ.get("PYTHONHASHSEED"), "probe": hash("cotengra") % 1000}, sys.stdout)
 
 
